@@ -41,3 +41,40 @@ def settings_untouched_by_personalize_algorithm(n_iter: int, which: int) -> bool
     algo = algorithm_factory(settings)
     algo._initialize_annealing()
     return settings.parameters == snap
+
+
+# ---- the visits table handed to simulate (visit_type="dataframe") is not modified -----------------------------------
+import pandas as pd  # noqa: E402
+from leaspy.algo.simulate.simulate import SimulationAlgorithm  # noqa: E402
+from leaspy.exceptions import LeaspyAlgoInputError, LeaspyIndividualParamsInputError  # noqa: E402
+
+
+def _sim_settings(df):
+    return AlgorithmSettings("simulate", seed=0, features=["y1", "y2"], visit_parameters={"visit_type": "dataframe", "df_visits": df})
+
+
+# warm-up (lazy imports) with an ordinary table
+_w = SimulationAlgorithm(_sim_settings(pd.DataFrame({"ID": ["a", "a", "b"], "TIME": [60.0, 61.0, 70.0]})))
+_w._generate_visit_ages(pd.DataFrame())
+
+
+def simulate_leaves_the_visits_table_untouched(id0: int, id1: int, ids_as_text: bool, t0: float, dt: float) -> bool:
+    """
+    constructing the simulation algorithm (design checks) and deriving the visit ages never writes into the caller's table,
+    whatever the identifiers are (numbers or text)
+
+    pre: -5 <= id0 <= 300 and -5 <= id1 <= 300
+    pre: 40.0 <= t0 <= 90.0 and 0.25 <= dt <= 5.0
+    post: __return__
+    """
+    ids = [id0, id0, id1]
+    df = pd.DataFrame({"ID": [str(i) for i in ids] if ids_as_text else ids, "TIME": [t0, t0 + dt, t0 + 2 * dt]})
+    snap, snap_dtypes = df.copy(deep=True), list(df.dtypes)
+    settings = _sim_settings(df)
+    try:
+        algo = SimulationAlgorithm(settings)
+        ages = algo._generate_visit_ages(pd.DataFrame())
+    except (LeaspyAlgoInputError, LeaspyIndividualParamsInputError):
+        ages = None  # refused design: still nothing may have been written
+    held = settings.parameters["visit_parameters"]["df_visits"]
+    return df.equals(snap) and list(df.dtypes) == snap_dtypes and held is df and (ages is None or sorted(len(v) for v in ages.values()) == ([1, 2] if id0 != id1 else [3]))
